@@ -818,6 +818,28 @@ func checkReleaseRuleOnEveryPath(p *Program, r *Report, m *Model, k *ssa.Functio
 		}
 		return got[0] && got[1]
 	}
+	// R13.10: the release rule returns a value between the curves on every path
+	checkReleaseWithinCurves(p, r, key, closures, func(c ssa.CallInstruction) [2]bool {
+		var got [2]bool
+		args := append([]ssa.Value{}, c.Common().Args...)
+		if c.Common().IsInvoke() {
+			args = append(args, c.Common().Value)
+		}
+		for _, a := range args {
+			if isParam(a, minR) {
+				got[0] = true
+			}
+			if isParam(a, maxR) {
+				got[1] = true
+			}
+		}
+		if g := calleeOfCall(c); g != nil {
+			cg := consults[g]
+			got[0] = got[0] || cg[0]
+			got[1] = got[1] || cg[1]
+		}
+		return got
+	})
 	// R13.8: the demand the release rule is asked about is the timestep's demand
 	r.Rule("R13.8", "the release rule is given the demand of the timestep: where an argument of a call of the release rule can be the value read from the demand input, it is that value on every feasible way in (a way guarded by a constant-false switch is not feasible) — a demand adjusted on the way makes the release differ from a demand that lies between the curves")
 	{
